@@ -392,6 +392,9 @@ def run(ctx):
         rd = common.build_driver(ctx, "C18")
     if rt and rd:
         c18.runner_check(ctx, rt, rd, random.Random(ctx.seed), ctx.tier == "thorough", "C13", "retains-nothing")
+        # a keep-alive that gives up while the application keeps the connection open must leave nothing of its last ping behind
+        c18.server_peers_check(ctx, rt, rd, random.Random(ctx.seed + 13), 300 if ctx.tier == "thorough" else 80, "C13", "retains-nothing",
+                               levels=("udpnc", "tcpnc"))
     return common.finish(ctx)
 
 
@@ -401,7 +404,7 @@ def replay(ctx, rep):
     if not lines:
         print("replay file names no failing input:", rep.get("no_longer_checks"))
         return 1
-    if lines[0].startswith("rcfg") or lines[0].startswith("conns") or lines[0].startswith("ctor"):
+    if lines[0].startswith("rcfg") or lines[0].startswith("conns") or lines[0].startswith("ctor") or rep.get("server_peers"):
         from . import c18
         return c18.replay(ctx, rep)
     res = evaluate(ctx, art, lines, tag="replay")
